@@ -84,6 +84,16 @@ def concretize(prop, ob):
         from_tab = detail if detail and " " not in detail else case[len("accepts:"):]
         out.append(("pure_call", {"function": "_clean_algorithm", "args": [from_tab],
                                   "expect": ["return", repr(_canon(from_tab))]}))
+    short0 = fn.split(".")[-1]
+    if prop in ("C06", "C19") or short0 in ("_verify_object_information", "_check_integer"):
+        out.append(("verdict_matrix", {}))
+    if prop == "C17":
+        out.append(("reject_matrix", {}))
+    if prop == "C20" and name.startswith("main/"):
+        out.append(("client_matrix", {}))
+    if prop == "C14" or short0 in ("_verify_hashstore_properties", "_validate_properties",
+                                   "_write_properties", "__init__"):
+        out.append(("config_matrix", {}))
     # last resort for the reference / object / metadata layer: bounded search for a failing call
     # sequence next to an independent reference model of the property statements
     REFLAYER = ("_is_string_in_refs_file", "_update_refs_file", "_store_hashstore_refs_files",
